@@ -383,7 +383,10 @@ def layouts(tier):
     out += ["PrecededBy('c', Capture('ab'))", "PrecededBy('c', Capture('a', 'n') + 'b')", "PrecededBy(Capture('c'), 'a' + Capture('b', 'n'))", "FollowedBy('a', Capture('b'))",
             "FollowedBy(Capture('a', 'n'), 'b' + Capture('c'))", "EnclosedBy('b', Capture('a'))", "PrecededBy('b', Capture(AnyLetter(), 'n') + AnyLetter() + AnyLetter())",
             "Capture(Optional('a')) + Capture(Optional('b')) + Capture(Optional('a'), 'n')", "Capture(Pregex()) + Capture(Pregex(), 'n') + 'a'",
-            "Pregex('\\\\') + Capture('a')", "'(' + Capture('a', 'n') + ')'"]
+            "Pregex('\\\\') + Capture('a')", "'(' + Capture('a', 'n') + ')'",
+            # zero-length matches whose (named) captures sit inside a lookaround
+            "FollowedBy(Pregex(), Capture('a', 'n'))", "PrecededBy(Pregex(), Capture('a', 'n'))", "FollowedBy(Pregex(), Capture('a') + Capture(Optional('b'), 'n'))",
+            "FollowedBy(MatchAtLineStart(Pregex()), Capture('a', 'n'))"]
     seen, res = set(), []
     for e in out:
         if e not in seen:
@@ -548,7 +551,8 @@ FLAT_LAYOUTS = ["Capture('a')", "Capture('a') + Capture('b')", "Capture('a', 'x'
                 "Pregex('\\\\') + Capture('a')", "Capture(Pregex('\\\\')) + 'a'", "'(' + Capture('a') + ')'", "Capture('(')", "Capture(AnyFrom('(', ')'))",
                 "Group('a') + Capture('b')", "Capture('a') + Group(Optional('b'))", "Pregex('\\\\') + Capture('a', 'x') + Pregex('\\\\') + Capture('b')",
                 "AnyFrom('(', 'a') + Capture('b')", "Capture('a') + '?'", "Pregex('(?:') + Capture('a')"]
-FLAT_LAYOUTS += ["Capture(Optional('a')) + Capture(Optional('b'))", "Capture(Pregex()) + Capture(Indefinite('b')) + Capture(Optional('a'), 'n')", "Capture(Optional('a')) + Capture(Pregex(), 'e') + 'b'"]
+FLAT_LAYOUTS += ["FollowedBy('a', Capture('b'))", "PrecededBy('b', Capture('a'))", "FollowedBy(Capture('a'), Capture('b', 'n'))",
+                 "Capture(Optional('a')) + Capture(Optional('b'))", "Capture(Pregex()) + Capture(Indefinite('b')) + Capture(Optional('a'), 'n')", "Capture(Optional('a')) + Capture(Pregex(), 'e') + 'b'"]
 FLAT_EXTRA = {e: '(?:' if "'(?:'" in e else ('\\' if '\\\\' in e else '') + ('(' if "'('" in e or "'(?:'" in e else '') + (')' if "')'" in e else '') + ('?' if "'?'" in e else '') or 'c' for e in FLAT_LAYOUTS}
 
 
